@@ -1,7 +1,7 @@
 (* C17 — A Reorder'd injector may be listed anywhere. *)
 From Coq Require Import List Arith Bool Permutation.
 Import ListNotations.
-From NJ Require Import Base Registry Classify Select Reorder Machine Spec Bind ReorderProofs SelectProofs Refine Chain.
+From NJ Require Import Base Registry Classify Select Reorder Machine Spec Bind ReorderProofs SelectProofs Refine Chain OrderProofs.
 
 (* Reordering never loses or duplicates a provider: the working list after reorder is a
    permutation of the list before (by provider id), for every list. *)
@@ -36,3 +36,31 @@ Theorem C17_selection_after_reorder_sound : forall te funcs0 funcs,
   (forall k p, getp funcs k = Some p -> p_required p = true -> p_include p = true).
 Proof. exact select_sound. Qed.
 Print Assumptions C17_selection_after_reorder_sound.
+
+(* In every chain containing Reorder'd providers, those not marked Reorder keep their listed
+   relative order: the providers that are not marked Reorder appear in the reordered list in
+   exactly the order they were listed (by provider id), for every list and whatever the
+   topological sort does with the others - including when it runs out of fuel or leaves
+   providers unplaced. *)
+Theorem C17_non_reorder_keep_listed_order : forall te funcs funcs',
+  reorder_funcs te funcs = Ok funcs' ->
+  map p_pid (filter (fun p => negb (is_reorder p)) funcs') = map p_pid (filter (fun p => negb (is_reorder p)) funcs).
+Proof. exact reorder_keeps_listed_order. Qed.
+Print Assumptions C17_non_reorder_keep_listed_order.
+
+(* non-vacuity: A-producer, a Reorder'd C-from-B injector listed before its producer, B-from-A
+   injector, final taking C.  Reorder moves provider 2 behind provider 3; 1, 3, 4 keep their order. *)
+Definition ex_ty (c : nat) : tyinfo := mkTy c false 1 0 true true false [] 0.
+Definition ex_te : tyenv := mkTyenv [ex_ty 10; ex_ty 11; ex_ty 12] 1 2 3 4 5.
+Definition ex_prov (pid : nat) (cl : classT) (g : groupT) (reo : bool) (ins outs : list nat) : prov :=
+  mk_prov (mkSprov (mkPdesc pid 0 0 0 0 (ShFn ins outs) false false false false false false reo false false false false false 0
+                            [] None None [] 0 [] false)
+                   cl g (mkFlows None (Some outs) (Some ins) None None) false false false false None None).
+Definition ex_funcs : list prov :=
+  [ex_prov 1 ClInjector GRun false [] [10]; ex_prov 2 ClInjector GRun true [11] [12];
+   ex_prov 3 ClInjector GRun false [10] [11]; ex_prov 4 ClFinal GFinal false [12] []].
+Example C17_nonvacuous :
+  exists r, reorder_funcs ex_te ex_funcs = Ok r /\ map p_pid r = [1; 3; 2; 4] /\
+            map p_pid (filter (fun p => negb (is_reorder p)) r) = [1; 3; 4].
+Proof. eexists. split; [vm_compute; reflexivity|]. split; reflexivity. Qed.
+Print Assumptions C17_nonvacuous.
